@@ -69,7 +69,12 @@ def _one(ctx, loop, spec):
         if path == "sync":
             raw = Node({da: key}, {}, own_address=sa, last_seq_sending=seq).secure_sync(telegram)
         elif path == "send":
-            sender = Node({da: key}, {}, own_address=sa, last_seq_sending=seq)
+            # explicit source address: the sending instance has another address of its own and must keep the requested one
+            sender = Node({da: key}, {}, own_address=spec.get("own", sa), last_seq_sending=seq)
+            if "own" in spec:
+                telegram.source_address = IndividualAddress(sa)
+                ctx.count("send_with_explicit_source")
+                ctx.count("send_with_explicit_source_device_part_0" if sa & 0xFF == 0 else "send_with_explicit_source_other")
             raw = loop.run(sender.send(telegram), max_vtime=30)
             ctx.check(
                 telegram.data_secure is True,
@@ -231,11 +236,19 @@ def _spec(ctx, rng, kind, path, payload):
     else:
         seq = rng.randrange(1, SEQ_MAX + 1)
     last = rng.choice((0, seq - 1, rng.randrange(0, seq)))
+    own = None
+    if path == "send" and rng.random() < 0.6:
+        # explicit Telegram.source_address, incl. coupler style x.y.0, 0.0.1 and 15.15.255
+        sa = rng.choice((0x1100, 0x4000, 0xFF00, 0x0100, 0x0001, 0xFFFF, rng.randrange(1, 256) << 8, rng.randrange(1, 16) << 12,
+                         rng.randrange(1, 0x10000)))
+        own = rng.choice([a for a in (0x1001, 0x1105, rng.randrange(1, 0x10000)) if a != sa])
     rx = rng.randrange(1, 0x10000)
     spec = {
         "key": rng.randbytes(16).hex(), "sa": sa, "da": da, "kind": kind, "path": path, "seq": seq, "last": last,
         "rx": rx if rx != sa else (sa % 0xFFFF) + 1, "apdu": bytes(payload.to_knx()).hex(),
     }
+    if own is not None:
+        spec["own"] = own
     if rng.random() < 0.5:
         spec["noise_keys"] = {str(rng.randrange(1, 0x10000)): rng.randbytes(16).hex() for _ in range(3)}
         spec["noise_senders"] = {str(rng.randrange(1, 0x10000)): rng.randrange(0, SEQ_MAX) for _ in range(3)}
@@ -251,7 +264,8 @@ def run(ctx):
         "paths: sync = DataSecure.outgoing_cemi, send = CEMIHandler.send_telegram on the virtual loop, auth / enc-api = "
         "SecureData.init_from_plain_apdu (authentication only / encryption); distinct = (kind, path, APDU octets, counter size class, outcome)"
     )
-    ctx.require("roundtrips_ok", "frames_sync", "frames_send", "frames_auth", "frames_enc-api", "kind_group", "kind_broadcast",
+    ctx.require("roundtrips_ok", "frames_sync", "frames_send", "frames_auth", "frames_enc-api", "send_with_explicit_source_device_part_0",
+                "send_with_explicit_source_other", "kind_group", "kind_broadcast",
                 "kind_tag", "delivered_via_queue", "delivered_via_management", "sender_sessions_started_from_clock", "restart_frames_delivered",
                 "delivered_after_restart_offset_0.0", "delivered_after_restart_offset_0.001", "delivered_after_restart_offset_0.999",
                 "delivered_after_restart_offset_2.0")
